@@ -456,6 +456,32 @@ def r4_recording_robust(ctx, sym):
                       % (fields.get('exception_message') if isinstance(fields, dict) else fields,)),
                   "`raise ValueError()` / bare `assert` / `sys.exit()` in student code: run() raises into the "
                   "instructor script while recording the failure; no runtime feedback is attached")
+    # fields are wrapped for interpolation without being converted: only a template that names a field renders it
+    # (the templates are checked below), so wrapping the raw exception object must not call its __str__/__repr__
+    core_fmt = ctx.repo.module('pedal.core.formatting')
+    wf = core_fmt.func('wrap_fields')
+    ctx.analysed_function(core_fmt, wf)
+    hostile = Obj('student-exception', exc_kind='ValueError')
+    conversions = []
+
+    def _hostile(name):
+        def f(o='', *a, **k):
+            if o is hostile:
+                conversions.append(name)
+                raise _Raised('TypeError', 'can only concatenate str (not "int") to str')
+            return '%s(...)' % name
+        return f
+    fd = symexec.new_fd(sym, core_fmt, calls={'str': _hostile('str'), 'repr': _hostile('repr'),
+                                              'format': _hostile('format')})
+    wrapped, raised = symexec.run(fd, wf, [Obj('formatter', available=[]), {'exception': hostile, 'name': 'x'}],
+                                  what='wrap_fields')
+    ctx.check(raised is None and not conversions and isinstance(wrapped, dict) and set(wrapped) == {'exception', 'name'},
+              'R4', 'wrap_fields:does-not-convert', core_fmt, wf,
+              "wrapping the fields of the runtime feedback %s the raw exception object (%s)" % (
+                  'converts' if conversions else 'fails on', ', '.join(conversions) or (
+                      raised.kind if raised is not None else 'unexpected result')),
+              "class OutOfStock(Exception):\n    def __str__(self): return 'only ' + 3\nraise OutOfStock()  -> "
+              "run() raises TypeError into the instructor script instead of returning")
     ctx.floor('R4', 'functions in the taint closure', n_fns, 3)
     ctx.floor('R4', 'conversion sites of the exception object', n_conv, 1)
     # templates
